@@ -6,7 +6,7 @@ LEVEL = 'model_checking'
 EXPLANATION = ('bit-vector bounded model check (z3) of the LALR(1) automaton regenerated from the shipped grammar over a symbolic token string, '
                'plus solver-enumerated layout / optional-word variants of statement productions parsed by the real parser')
 ASSUMPTIONS = [
-    'expression alphabet: operands NUMBER and TRUE (all operand kinds reduce through expression : constant / variable_access and are not distinguished), the 16 binary operator tokens, 6 unary tokens, parentheses; strings RETURN t1..tN ; with N <= 4 exhaustively and N = 5 by cubes (quick: all dead prefixes + seed-rotated viable 2-token cubes; thorough: all 95 viable cubes; N = 6 sampled 3-token cubes in thorough)',
+    'expression alphabet: operands NUMBER and TRUE (all operand kinds reduce through expression : constant / variable_access and are not distinguished), the 16 binary operator tokens, 6 unary tokens, parentheses; strings RETURN t1..tN ; with N <= 4 exhaustively and N = 5 by cubes (quick: all dead prefixes + all 16 cubes NUMBER <binary operator>, i.e. every pair of adjacent binary operators, + 4 seed-rotated unary/parenthesis cubes; thorough: all 95 viable cubes; N = 6 sampled 3-token cubes in thorough)',
     'oracle = reference precedence table written from the property statement (or < and < comparison (non-associative) < + - | < * / & ^ < %, unary tightest, parentheses group) and a hand-written well-formedness predicate kept honest by the tightness query',
     'the PLY driver loop is modelled in about 40 lines; every witness model is replayed through the real oal.parse (fresh tables) and a reference precedence-climbing parser',
     'statements / optional words / layout: the parser is only exercised on solver-enumerated variants (33 core programs + 10 carrier statements x 16 optional-word masks x 8x8 gap pairs, sampled by shard); not a verdict over all layouts; text-level totality is C13 (not applicable)',
@@ -37,7 +37,11 @@ def conditions(tier, seed):
     out.append(Cond('bmc_N5_dead_prefixes', 'c07_bmc.py', dict(N=5, cubes=[['!VIABLE2']], timeout_ms=tmo), kind='script', timeout=1500,
                     bound='length 5, all strings whose first two tokens are not a viable prefix', symbolic=['t1..t5']))
     if tier == 'quick':
-        picks = [v[(seed * 11 + k * 7) % len(v)] for k in range(10)]
+        # every pair of adjacent binary operators starts with <operand> <binary operator>: all 16 such cubes with the
+        # first operand fixed (operand kinds are symmetric), plus seed-rotated cubes starting with a unary operator / parenthesis
+        picks = [['NUMBER', b] for b in BIN]
+        rest = [c for c in v if c[0] not in OPERANDS]
+        picks += [rest[(seed * 11 + k * 7) % len(rest)] for k in range(4)]
         groups = [[p] for p in picks]
     else:
         groups = [[p] for p in v]
@@ -57,7 +61,7 @@ def conditions(tier, seed):
     picks = [(seed * 3 + k * 9) % ns for k in range(4)] if tier == 'quick' else list(range(ns))
     for sh in picks:
         out.append(Cond('layout_s%d' % sh, 'c07_layout.py', dict(shard=sh, nshards=ns), timeout=900 if tier == 'quick' else 6000,
-                        bound='statement productions x optional words x gap pairs (shard %d/%d of 43 x 16 x 64)' % (sh, ns),
+                        bound='statement productions x optional words x gap pairs (shard %d/%d of 43 x 16 x 144)' % (sh, ns),
                         case_split=['ci (program, optional-word mask, gap pair)'], realised=['program text']))
     return out
 
